@@ -68,6 +68,15 @@ func main() {
 		}
 		fn(&props.Ctx{Prog: prog, Rep: rep, Tier: *tier, Repo: *repo, Verif: verif})
 	}()
+	if sf := os.Getenv("VERIF_REPLAY_SUMMARY"); sf != "" {
+		if b, err := os.ReadFile(sf); err == nil {
+			for _, line := range strings.Split(strings.TrimSpace(string(b)), "\n") {
+				if line != "" {
+					rep.Infof("%s", line)
+				}
+			}
+		}
+	}
 	code := rep.Finish(*out, kf, cmdline)
 	pprof.StopCPUProfile()
 	os.Exit(code)
